@@ -145,12 +145,12 @@ func (ex *Exec) bitUF(op string, bits uint) string {
 	if _, ok := ex.sc.decls[name]; !ok {
 		ex.sc.fun(name, []string{sInt, sInt}, sInt)
 		hi := numBig(pow2(bits))
-		ex.sc.assert(fmt.Sprintf("(forall ((a Int) (b Int)) (! (and (<= 0 (%s a b)) (< (%s a b) %s)) :pattern ((%s a b))))", name, name, hi, name))
+		ex.sc.axiom(fmt.Sprintf("(forall ((a Int) (b Int)) (! (and (<= 0 (%s a b)) (< (%s a b) %s)) :pattern ((%s a b))))", name, name, hi, name))
 		switch op {
 		case "and":
-			ex.sc.assert(fmt.Sprintf("(forall ((a Int) (b Int)) (! (=> (and (>= a 0) (>= b 0)) (and (<= (%s a b) a) (<= (%s a b) b))) :pattern ((%s a b))))", name, name, name))
+			ex.sc.axiom(fmt.Sprintf("(forall ((a Int) (b Int)) (! (=> (and (>= a 0) (>= b 0)) (and (<= (%s a b) a) (<= (%s a b) b))) :pattern ((%s a b))))", name, name, name))
 		case "or":
-			ex.sc.assert(fmt.Sprintf("(forall ((a Int) (b Int)) (! (=> (and (>= a 0) (>= b 0)) (and (>= (%s a b) a) (>= (%s a b) b) (<= (%s a b) (+ a b)))) :pattern ((%s a b))))", name, name, name, name))
+			ex.sc.axiom(fmt.Sprintf("(forall ((a Int) (b Int)) (! (=> (and (>= a 0) (>= b 0)) (and (>= (%s a b) a) (>= (%s a b) b) (<= (%s a b) (+ a b)))) :pattern ((%s a b))))", name, name, name, name))
 		}
 	}
 	return name
@@ -303,10 +303,10 @@ func (ex *Exec) pow2UF() string {
 	if _, ok := ex.sc.decls["pow2"]; !ok {
 		ex.sc.fun("pow2", []string{sInt}, sInt)
 		for i := 0; i <= 64; i++ {
-			ex.sc.assert(mkEq(app("pow2", num(int64(i))), numBig(pow2(uint(i)))))
+			ex.sc.axiom(mkEq(app("pow2", num(int64(i))), numBig(pow2(uint(i)))))
 		}
-		ex.sc.assert("(forall ((k Int)) (! (=> (>= k 0) (>= (pow2 k) 1)) :pattern ((pow2 k))))")
-		ex.sc.assert("(forall ((k Int)) (! (=> (and (>= k 0) (< k 32)) (< (pow2 k) 4294967296)) :pattern ((pow2 k))))")
+		ex.sc.axiom("(forall ((k Int)) (! (=> (>= k 0) (>= (pow2 k) 1)) :pattern ((pow2 k))))")
+		ex.sc.axiom("(forall ((k Int)) (! (=> (and (>= k 0) (< k 32)) (< (pow2 k) 4294967296)) :pattern ((pow2 k))))")
 	}
 	return "pow2"
 }
@@ -791,7 +791,7 @@ func (ex *Exec) makeInterface(st *State, v Val, it types.Type) Val {
 			ex.sc.fun("box_str", []string{sStr}, sInt)
 			ex.sc.fun("unbox_str", []string{sInt}, sStr)
 			pay = ex.sc.define("box", sInt, app("box_str", v.term()))
-			ex.sc.assert(mkEq(app("unbox_str", pay), v.term()))
+			ex.sc.axiom(mkEq(app("unbox_str", pay), v.term()))
 		case u.Info()&types.IsBoolean != 0:
 			pay = mkIte(v.term(), "1", "0")
 		default:
@@ -869,12 +869,12 @@ func (ex *Exec) implementsPred(tid string, it types.Type) string {
 	iface := it.Underlying().(*types.Interface)
 	for id, t := range ex.eng.tidTypes {
 		if types.Implements(t, iface) {
-			ex.sc.assert(app(name, num(int64(id))))
+			ex.sc.axiom(app(name, num(int64(id))))
 		} else {
-			ex.sc.assert(mkNot(app(name, num(int64(id)))))
+			ex.sc.axiom(mkNot(app(name, num(int64(id)))))
 		}
 	}
-	ex.sc.assert(mkNot(app(name, "0")))
+	ex.sc.axiom(mkNot(app(name, "0")))
 	return app(name, tid)
 }
 
